@@ -105,11 +105,13 @@ func (s *RPCServer) handleWS(ctx context.Context, w http.ResponseWriter, r *http
 		}
 	}
 
+	vpoint(wc, "ws.accept", "remote", r.RemoteAddr)
 	lbl := pprof.Labels("jrpc-mode", "wsserver", "jrpc-remote", r.RemoteAddr, "jrpc-uuid", uuid.New().String())
 	pprof.Do(ctx, lbl, func(ctx context.Context) {
 		wc.handleWsConn(ctx)
 	})
 
+	vpoint(wc, "ws.done")
 	if err := c.Close(); err != nil {
 		log.Errorw("closing websocket connection", "error", err)
 		return
